@@ -42,6 +42,17 @@ func NewAesCipher(key []byte) (*AesCipher, error) {
 	return &AesCipher{key: key}, nil
 }
 
+// decodeCanonicalBase64 accepts only the canonical padded base64 that
+// Floodgate's Base64Topping emits. Go's default decoder skips CR/LF and ignores
+// non-zero trailing bits, which would let an altered hostname decode to the
+// same bytes and pass authentication.
+func decodeCanonicalBase64(b []byte) ([]byte, error) {
+	if i := bytes.IndexAny(b, "\r\n"); i >= 0 {
+		return nil, base64.CorruptInputError(i)
+	}
+	return base64.StdEncoding.Strict().DecodeString(string(b))
+}
+
 // Decrypt decrypts Floodgate-formatted ciphertext.
 // The format is: ^Floodgate^VERSION+MAGIC + base64(IV) + SPLITTER + base64(ciphertext)
 func (c *AesCipher) Decrypt(cipherTextWithIv []byte) ([]byte, error) {
@@ -68,12 +79,12 @@ func (c *AesCipher) Decrypt(cipherTextWithIv []byte) ([]byte, error) {
 	ivB64 := data[:splitIndex]
 	cipherTextB64 := data[splitIndex+1:]
 
-	iv, err := base64.StdEncoding.DecodeString(string(ivB64))
+	iv, err := decodeCanonicalBase64(ivB64)
 	if err != nil {
 		return nil, fmt.Errorf("failed to decode IV: %w", err)
 	}
 
-	cipherText, err := base64.StdEncoding.DecodeString(string(cipherTextB64))
+	cipherText, err := decodeCanonicalBase64(cipherTextB64)
 	if err != nil {
 		return nil, fmt.Errorf("failed to decode ciphertext: %w", err)
 	}
